@@ -146,6 +146,12 @@ class Interp:
         else:
             dotted = mod
         target = self.rel_of(dotted) if dotted.startswith('hidc') else None
+        if target is not None and target.endswith('__init__.py') and all(
+                a.name != '*' and self.rel_of(dotted + '.' + a.name) is not None for a in st.names):
+            # `from package import submodule`: bind the submodules without running the package body again
+            for a in st.names:
+                env.vars[a.asname or a.name] = _ModuleView(self.load(self.rel_of(dotted + '.' + a.name)))
+            return
         if target is not None:
             ns = self.load(target)
             for a in st.names:
@@ -163,6 +169,11 @@ class Interp:
                         env.vars[a.asname or a.name] = _ModuleView(self.load(sub))
             return
         if dotted.startswith('hidc'):
+            # namespace package (no __init__.py): only submodules can be imported from it
+            if all(a.name != '*' and self.rel_of(dotted + '.' + a.name) is not None for a in st.names):
+                for a in st.names:
+                    env.vars[a.asname or a.name] = _ModuleView(self.load(self.rel_of(dotted + '.' + a.name)))
+                return
             raise Unsupported(f'repository module {dotted} not found')
         m = self._std(dotted)
         for a in st.names:
